@@ -778,6 +778,120 @@ def jacobi_reference(c):
     return acc, mag
 
 
+# ----------------------------------------------------------------------------------------------- integrator sequences on ONE object
+SEQ_INTS = ["ias15", "whfast", "whfast:dh", "whfast:bary", "whfast:whds", "whfast:lazy", "saba", "saba:lazy", "mercurius", "trace",
+            "leapfrog", "sei", "eos", "janus", "bs", "none"]
+
+
+def seq_setint(sim, name):
+    base, _, opt = name.partition(":")
+    sim.integrator = base
+    if base == "whfast":
+        sim.ri_whfast.coordinates = {"": "jacobi", "dh": "democraticheliocentric", "bary": "barycentric", "whds": "whds", "lazy": "jacobi"}[opt]
+        sim.ri_whfast.kernel = "lazy" if opt == "lazy" else "default"
+    if base == "saba":
+        sim.ri_whfast.coordinates = "jacobi"
+        sim.ri_saba.type = "lazy" if opt == "lazy" else "(10,6,4)"
+
+
+def seq_system(rng):
+    n = rng.choice([3, 4, 5])
+    orb = []
+    a = rng.uniform(0.8, 1.2)
+    for i in range(1, n):
+        orb.append((10 ** rng.uniform(-5, -3), a, rng.uniform(0, 0.1), rng.uniform(0, 0.1), rng.uniform(0, 6.28), rng.uniform(0, 6.28)))
+        a *= rng.uniform(1.8, 2.4)
+    return {"m0": rng.uniform(0.8, 1.2), "orbits": orb, "dt": 0.02}
+
+
+def seq_make(rebound, sysd):
+    sim = rebound.Simulation()
+    sim.add(m=sysd["m0"])
+    for m, a, e, inc, O, f in sysd["orbits"]:
+        sim.add(m=m, a=a, e=e, inc=inc, Omega=O, f=f)
+    sim.move_to_com()
+    sim.dt = sysd["dt"]
+    return sim
+
+
+def seq_clone(rebound, sim):
+    s2 = rebound.Simulation()
+    s2.G = sim.G; s2.dt = sim.dt; s2.t = sim.t
+    for p in sim.particles:
+        s2.add(m=p.m, x=p.x, y=p.y, z=p.z, vx=p.vx, vy=p.vy, vz=p.vz)
+    return s2
+
+
+def seq_search(ctx, rebound, rng):
+    """History independence of the force selection: a few steps with integrator A (then optionally B), then switch to the last
+    integrator WITHOUT touching sim.gravity / gravity_ignore_terms: (i) the first and second force evaluation must be the specified
+    pairwise sum for the gravity routine / ignore_terms the simulation reports after the call, (ii) two steps must agree with a FRESH
+    simulation started from the same state with only that integrator selected."""
+    import warnings
+    sysd = seq_system(rng)
+    seqs = [(A, B) for A in SEQ_INTS for B in SEQ_INTS if A != B]
+    seqs += [(A, B, A) for A in SEQ_INTS for B in ("ias15", "leapfrog", "whfast", "whfast:dh", "mercurius", "bs") if A != B]
+    if not ctx.thorough:
+        seqs = [q for k, q in enumerate(seqs) if len(q) == 2 or k % 2 == 0]
+    clib = rebound.clibrebound
+    found = {}
+    with warnings.catch_warnings():
+        warnings.simplefilter("ignore")
+        for q in seqs:
+            try:
+                sims = [seq_make(rebound, sysd), seq_make(rebound, sysd)]
+                for sim in sims:
+                    for name in q[:-1]:
+                        seq_setint(sim, name)
+                        for _ in range(3):
+                            sim.step()
+                        sim.synchronize()
+                last = q[-1]
+                sim, sim2 = sims
+                fresh = seq_clone(rebound, sim)
+                seq_setint(sim, last); seq_setint(fresh, last); seq_setint(sim2, last)
+                # (i) first and second force evaluation on the second copy
+                for call in (1, 2):
+                    clib.reb_simulation_update_acceleration(ctypes.byref(sim2))
+                    if sim2.gravity in ("basic", "compensated") and sim2.N > 0:
+                        c = {"routine": "basic", "N": sim2.N, "nact_raw": -1, "tp": 0, "ign": int(sim2.gravity_ignore), "ghost": (0, 0, 0),
+                             "boundary": "none", "box": None, "G": sim2.G, "soft": sim2.softening,
+                             "ms": [p.m for p in sim2.particles], "xs": [p.x for p in sim2.particles],
+                             "ys": [p.y for p in sim2.particles], "zs": [p.z for p in sim2.particles]}
+                        acc, mag = spec_acc(c)
+                        got = [v for p in sim2.particles for v in (p.ax, p.ay, p.az)]
+                        bad = compare_spec(got, acc, mag, sim2.N, sim2.N) if acc is not None else None
+                        if bad:
+                            key = "sequence:force_call%d:%s" % (call, "->".join(x.partition(":")[0] for x in q))
+                            found.setdefault(key, (q, replay_obj(c, sequence=list(q), system=sysd, failing=str(bad)),
+                                                   "force evaluation %d after switching integrators %s is not the specified sum for the routine (%s) "
+                                                   "and gravity_ignore_terms (%d) the simulation reports" % (call, "->".join(q), sim2.gravity, sim2.gravity_ignore)))
+                # (ii) two steps vs a fresh simulation
+                for _ in range(2):
+                    sim.step(); fresh.step()
+                sim.synchronize(); fresh.synchronize()
+                scale = max(abs(getattr(p, cc)) for p in fresh.particles for cc in "xyz") or 1.0
+                diff = max(abs(getattr(p, cc) - getattr(r_, cc)) for p, r_ in zip(sim.particles, fresh.particles) for cc in "xyz")
+                ctx.evaluations += 1
+                ctx.nontrivial.add(("sequence",) + tuple(q))
+                if not diff <= 1e-10 * scale:
+                    B = last.partition(":")[0]
+                    if sim.gravity != fresh.gravity:
+                        key = "sequence:gravity_left=%s" % sim.gravity
+                    elif sim.gravity_ignore != fresh.gravity_ignore:
+                        key = "sequence:ignore_terms_left=%d:%s" % (sim.gravity_ignore, B)
+                    else:
+                        key = "sequence:forces_differ:%s" % "->".join(x.partition(":")[0] for x in q)
+                    found.setdefault(key, (q, {"sequence": list(q), "system": sysd, "failing": "max |dx| vs fresh simulation %.3e; gravity %s/%s, "
+                                               "gravity_ignore_terms %d/%d (continued/fresh)" % (diff, sim.gravity, fresh.gravity, sim.gravity_ignore, fresh.gravity_ignore)},
+                                           "after %s the trajectory differs from a fresh simulation given the same state and integrator %s: a gravity "
+                                           "selector left behind by an earlier integrator changes the force" % ("->".join(q[:-1]), last)))
+            except (RuntimeError, ValueError, AttributeError):
+                continue
+    for key, (q, rep, what) in sorted(found.items()):
+        ctx.violation(key, rep, True, what)
+
+
 # ----------------------------------------------------------------------------------------------- main
 def run(ctx):
     libdir = ctx.lib(tag="c02")   # own build directory: concurrent checks with another VERIF_REPO purge lib-default-*
@@ -899,6 +1013,7 @@ def run(ctx):
                           True, "library output differs bitwise from the binary64 instance of the proved model")
     # ---- searcher
     searcher(ctx, rebound, rng)
+    seq_search(ctx, rebound, rng)
     ctx.rule = ("correspondence: every (routine, N_active in {-1,0..N}, testparticle_type, gravity_ignore_terms, ghost/boundary/root-box "
                 "variant) combination for N<=5 and a thinned set for larger N (to 40 quick / 200 thorough), masses incl. 0 and ratios "
                 "1e-12, random G/softening/positions incl. close pairs; a case is distinct by (routine,N,N_active,type,ign,ghost); "
